@@ -12,7 +12,7 @@ def run(ctx):
                 "distinct limits - also after sitting out the idle waits on the way for longer than the read-header limit and sending heads in two pieces (dwell; deadline-base mutant HeadFromWaitStart) -, times the close against the last byte sent (lower bound, 3 s upper slack), runs a "
                 "well-behaved client meanwhile, and a slow-origin exchange per stacking. Non-trivial = every case.")
     ctx.mc("Timeouts.tla", "MC_Timeouts_Q.cfg" if q else "MC_Timeouts.cfg", timeout=1800)
-    for m in ("MC_Timeouts_bug.cfg", "MC_Timeouts_headbase.cfg"):
+    for m in ("MC_Timeouts_bug.cfg", "MC_Timeouts_headbase.cfg", "MC_Timeouts_nomwait.cfg"):
         ok, _, _, _ = ctx.mc("Timeouts.tla", m, expect_ok=False)
         if ok:
             raise vlib.Infra("Timeouts mutant %s not detected by the model" % m)
